@@ -87,6 +87,12 @@ Next == /\ ~done /\ done' = TRUE
              /\ Emit(<<"bmp-base", bi>>, "bmp", "none", img, "accept", <<>>)
              /\ \A k \in 0..(Len(img) - 1) : Emit(<<"bmp-prefix", bi, k>>, "bmp", "prefix", SubSeq(img, 1, k), "refuse", <<>>)
              /\ \A f \in BmpFields : \A v \in BmpValues(f, b) : Emit(<<"bmp-field", bi, f[1], v>>, "bmp", f[1], SetBytes(img, f[2], v), "any", <<>>)
+        \* bitmaps and tilesets without pixel rows: the file ends with its palette
+        /\ \A bi \in 1..3 :
+             LET img == IF bi = 1 THEN ImageWith(Bm(0, 3, 8, 256), 0) ELSE IF bi = 2 THEN ImageWith(Bm(4, 0, 1, 2), 0) ELSE EncodeCustom(TsPic(0))
+                 kind == IF bi = 3 THEN "tileset" ELSE "bmp" IN
+             /\ Emit(<<"norows-base", bi>>, kind, "none", img, "accept", <<>>)
+             /\ \A k \in {x \in 0..(Len(img) - 1) : x < 60 \/ x > Len(img) - 40} : Emit(<<"norows-prefix", bi, k>>, kind, "prefix", SubSeq(img, 1, k), "refuse", <<>>)
         /\ \A wt \in { <<1, -7, -2, 0, 2>>, <<1, -7, 2, 0, 2>>, <<8, -4, 1, 0, 256>>, <<8, -1, -1, 0, 256>>, <<4, -8, 3, 0, 16>>, <<1, -39, 1, 0, 2>>, <<8, -3, 1, 0, 0>>,
                      <<8, 0, 5, 0, 256>>, <<8, 5, 0, 0, 256>>, <<1, 0, 0, 0, 2>> } :
              Emit(<<"bmp-witness", wt>>, "bmp", "bmp.geometry-witness", BmpWitness(wt[1], wt[2], wt[3], wt[4], wt[5]), "any", <<>>)
